@@ -12,5 +12,6 @@ var verifHarnesses = map[string]func(){
 	"VerifH_C08_blocked":   VerifH_C08_blocked,
 	"VerifH_C12_deadlines": VerifH_C12_deadlines,
 	"VerifH_C12_twoTasks":  VerifH_C12_twoTasks,
+	"VerifH_C08_killing":   VerifH_C08_killing,
 	"VerifH_C13_finalize":  VerifH_C13_finalize,
 }
